@@ -200,7 +200,7 @@ def check_case(case, acc):
             problems.append(("design-exists", f"{what}: raised {type(e).__name__}: {e}"))
             continue
         compare(ref, s2, perm, exact, what, problems)
-    acc.bulk(max(len(variants) - 1, 0), "transformed-frames")
+    acc.subcases(case, len(variants) - 1, True, "transformed-frames")
     nontriv = any(t in f for t in ("f", "g", "o", "C(", "scale", "center", "bs(", "poly", "minmax"))
     if problems:
         acc.case(case, "MISMATCH", sample=False)
